@@ -943,7 +943,7 @@ func (vc *VC) havocAllHeaps(st *State) {
 	sort.Strings(ks)
 	for _, k := range ks {
 		sn := vc.heapSorts[k]
-		if sn == "" {
+		if sn == "" || k == allocHeap {
 			continue
 		}
 		vc.nfresh++
@@ -958,6 +958,18 @@ func (vc *VC) havocAllHeaps(st *State) {
 	vc.facts = append(vc.facts, "(>= "+na.S+" "+a+")")
 	st.heaps[allocHeap] = na
 	vc.heapGen++
+}
+
+// havocGhostVars: ghost package state (abstract file system, ...) is unknown after unknown code.
+func (vc *VC) havocGhostVars(st *State) {
+	var gnames []string
+	for n := range vc.eng.ghostVars {
+		gnames = append(gnames, n)
+	}
+	sort.Strings(gnames)
+	for _, n := range gnames {
+		vc.havocGhostVar(st, vc.eng.ghostVars[n])
+	}
 }
 
 func (vc *VC) loopSpec(n ast.Node) *LoopSpec {
@@ -1194,6 +1206,22 @@ func (vc *VC) execRange(st *State, x *ast.RangeStmt) *State {
 		}
 		if valVar != nil {
 			vc.writeVar(body, valVar, Term{"(sat " + coll.S + " " + iv.S + ")", vc.U.sortOf(valVar.Type())})
+		}
+	case KFunc:
+		// range over an iterator: elements satisfy the `yields` clauses of the function that produced it
+		if call, ok := ast.Unparen(x.X).(*ast.CallExpr); ok {
+			if fc := vc.contractForCall(call); fc != nil && len(fc.Yields) > 0 {
+				yc := vc.newSpecCtx(fc, body, body)
+				if keyVar != nil {
+					yc.vars["k"] = body.vars[keyVar]
+				}
+				if valVar != nil {
+					yc.vars["v"] = body.vars[valVar]
+				}
+				for _, y := range fc.Yields {
+					vc.assume(body, yc.tr(y.Expr).S)
+				}
+			}
 		}
 	case KMap:
 		if keyVar != nil {
